@@ -711,12 +711,16 @@ fn scenario_ask_vs_end(seed: u64) {
     for c in 0..askers {
         let r = r.clone();
         let spins = rng.below(4);
+        let timed = rng.below(2) == 0;
         tasks.push(rt.spawn(async move {
             for _ in 0..spins {
                 tokio::task::yield_now().await;
             }
             let id = 100 + c;
-            match r.ask(Job(id, false)).await {
+            // half of the askers use ask_with_timeout with a limit far beyond the scenario: it must behave like
+            // ask here (a Timeout would mean that the call stayed pending on an actor that had ended)
+            let res = if timed { r.ask_with_timeout(Job(id, false), Duration::from_secs(3600)).await } else { r.ask(Job(id, false)).await };
+            match res {
                 Ok(rc) => {
                     if rc.id != id {
                         violation("C03", "reply-mismatch", format!("ask({id}) got the reply of {}", rc.id));
@@ -792,6 +796,14 @@ fn scenario_kill_then_drop(seed: u64) {
     for _ in 0..rng.below(4) {
         std::thread::yield_now();
     }
+    // (measured on the tree before the repair: sending more messages immediately before the kill hides the defect - 0 of
+    // 192 executions - because the actor then meets the kill signal at the top of its next loop iteration; with the few
+    // early messages above it shows in about 13 % of the executions over the pre-emption rates used for this scenario)
+    // sweep the alignment between this thread and the actor task (the window is a few dozen basic blocks wide)
+    let spin = rng.below(450);
+    for i in 0..spin {
+        std::hint::black_box(i);
+    }
     let res = r.kill();
     drop(r);
     for h in holders {
@@ -799,7 +811,7 @@ fn scenario_kill_then_drop(seed: u64) {
     }
     let out = rt.block_on(jh);
     let j = journal.lock().unwrap();
-    ev(format!("kill-then-drop cap={cap} msgs={n_msgs} handled={} kill={:?}", j.handled.len(), res.is_ok()));
+    ev(format!("kill-then-drop cap={cap} msgs={n_msgs} spin={spin} handled={} kill={:?}", j.handled.len(), res.is_ok()));
     if res.is_err() {
         violation("C06", "kill-failed", "kill() returned an error".into());
     }
